@@ -30,6 +30,7 @@ NAMES = [b"a", b"b", b"c", b"d", b"", b"abcdefg", b"abcdefgh", b"abcdefghi", b"\
 
 F32 = [0x00000000, 0x80000000, 0x3f800000, 0xbf800000, 0x7f800000, 0xff800000, 0x7fc00000, 0x7f800001, 0xffffffff,
        0x00000001, 0x007fffff, 0x00800000, 0x7f7fffff, 0x7fc12345, 0xffc00000]
+F32_NOT_NAN = [v for v in F32 if not ((v >> 23) & 0xff == 0xff and (v & 0x7fffff))]
 F64 = [0x0000000000000000, 0x8000000000000000, 0x3ff0000000000000, 0x7ff0000000000000, 0xfff0000000000000,
        0x7ff8000000000000, 0x7ff0000000000001, 0xffffffffffffffff, 0x0000000000000001, 0x000fffffffffffff,
        0x0010000000000000, 0x7fefffffffffffff, 0x7ff8dead0000beef]
@@ -50,10 +51,9 @@ def val(rng, t, domain="m"):
         return hx(struct.pack("<I", rng.choice(F32) if r < 0.8 else rng.randrange(2**32)))
     if t == "d":
         return hx(struct.pack("<Q", rng.choice(F64) if r < 0.8 else rng.randrange(2**64)))
-    if t == "P":
-        return "".join(hx(struct.pack("<I", rng.choice(F32))) for _ in range(2))
-    if t == "R":
-        return "".join(hx(struct.pack("<I", rng.choice(F32))) for _ in range(4))
+    if t in "PR":      # NaN components in about one item out of four (the Python codec compares Point/Rect on non-NaN values only)
+        comp = lambda: rng.choice(F32) if rng.random() < 0.2 else rng.choice(F32_NOT_NAN)
+        return "".join(hx(struct.pack("<I", comp())) for _ in range(2 if t == "P" else 4))
     if t == "s":
         pool = [b"", b"a", b"hello", b"1234567", b"12345678", b"123456789", b"\xc3\xbcber", b"\xff\xfe\x80", b"x" * 40, b"y" * 300,
                 bytes(rng.randrange(1, 256) for _ in range(rng.choice([1, 3, 15, 16, 17])))]
